@@ -39,7 +39,8 @@ class Gen:
                  total_sort_p=0.5, pref_engines=None, leaf_payloads=("simrows", "seq", "map"),
                  bounds=("exact",), special_leaf_p=0.0, named_mat=True, max_rows=5, itonly_p=0.0,
                  allow_pending_binary=0.05, hidden_p=0.0, zero_col_p=0.08, adjacent_p=0.0, ill_flags_p=0.5,
-                 nonkey_join_p=0.0, pipeline_p=0.0, redeclare_p=0.0, stride_order_only=False):
+                 nonkey_join_p=0.0, pipeline_p=0.0, redeclare_p=0.0, stride_order_only=False, pin_p=0.0):
+        self.pin_p = pin_p
         self.rng = rng
         self.engines = engines
         self.weights = weights
@@ -677,6 +678,25 @@ class Gen:
     def g_mark(self):
         i = self.pick(lambda s: not s.pending)
         if i is None:
+            return
+        if self.pin_p and self.rng.random() < self.pin_p:
+            # a *locked* user marker, preferably in the middle of a transfer round trip that then gets materialized
+            # (there -> pin -> back -> materialize): only markers between the materialization and a leaf of its engine
+            sh = self.pool[i]
+            others = [e for e in self.engines if e != sh.eng]
+            if others and self.rng.random() < 0.7:
+                self.ops.append({"k": "xfer", "t": i, "to": self.rng.choice(others)})
+                self.pool.append(sh.copy(eng=self.ops[-1]["to"]))
+                self.ops.append({"k": "mark", "t": len(self.pool) - 1, "pin": True})
+                self.pool.append(self.pool[-1].copy())
+                self.ops.append({"k": "xfer", "t": len(self.pool) - 1, "to": sh.eng})
+                self.pool.append(sh.copy())
+                self.nmat += 1
+                self.ops.append({"k": "mat", "t": len(self.pool) - 1, "name": f"m{self.nmat}"})
+                self.pool.append(sh.copy())
+                return
+            self.ops.append({"k": "mark", "t": i, "pin": True})
+            self.pool.append(self.pool[i].copy())
             return
         self.ops.append({"k": "mark", "t": i})
         self.pool.append(self.pool[i].copy())
